@@ -117,17 +117,55 @@ def run_impl_history(ops):
     return out, r
 
 
+def spec_step(spec, op):
+    """the 'obvious set semantics' of the property, on a list of [name, enabled]: first match by name"""
+    t = op[0]
+
+    def find(n):
+        for i, x in enumerate(spec):
+            if x[0] == n:
+                return i
+        return -1
+    if t == 0:
+        return  # replace: name and enabled flag unchanged
+    if t in (1, 2):
+        i = find(op[1])
+        if i >= 0:
+            spec.insert(i if t == 1 else i + 1, [op[2], True])
+        return
+    if t == 3:
+        spec.append([op[1], True])
+        return
+    if t in (4, 5, 6):
+        if t == 5:
+            for x in spec:
+                x[1] = False
+        for n in op[1]:
+            i = find(n)
+            if i < 0:
+                if op[2]:
+                    continue
+                return  # raises: names before it were processed
+            spec[i][1] = t != 6
+
+
 def direct_property(ops):
-    """applied == reported on the implementation, after every prefix; returns None or a
-    description of the first failure."""
+    """applied == reported on the implementation, and reported == the set semantics of the
+    calls, after every prefix; returns None or a description of the first failure."""
     from markdown_it.ruler import Ruler
 
     r = Ruler()
+    spec = []
     for k, op in enumerate(ops):
         try:
             apply_ruler_op(r, op, k)
         except Exception:  # noqa: BLE001
             pass
+        spec_step(spec, op)
+        if r.get_all_rules() != [x[0] for x in spec] or r.get_active_rules() != [x[0] for x in spec if x[1]]:
+            return {"after_op": k, "op": list(op), "reported_all": r.get_all_rules(), "reported_active": r.get_active_rules(),
+                    "expected_all": [x[0] for x in spec], "expected_active": [x[0] for x in spec if x[1]],
+                    "what": "reported rule set does not follow the set semantics of the calls"}
         if op[0] == 7:
             continue  # probes themselves
         rules = getattr(r, "__rules__", None)
